@@ -155,6 +155,16 @@ static int ref_step(struct rx_state *st, int i, int quirk, struct delivery *d)
 	return 0;
 }
 
+/* vbi_xds_demux_reset() is called before the pairs listed here (demultiplexer interfaces only): everything
+   received so far is forgotten, a packet continued afterwards has no start */
+static int reset_at[4], n_reset;
+static int is_reset_point(int i)
+{
+	int k;
+	for (k = 0; k < n_reset; k++) if (reset_at[k] == i) return 1;
+	return 0;
+}
+
 static void ref_receive(int quirk)
 {
 	struct rx_state st;
@@ -162,9 +172,11 @@ static void ref_receive(int quirk)
 	int i;
 	ref_reset(&st);
 	n_expect = 0;
-	for (i = 0; i < n_stream; i++)
+	for (i = 0; i < n_stream; i++) {
+		if (quirk != 2 && is_reset_point(i)) ref_reset(&st);
 		if (ref_step(&st, i, quirk, &d) && n_expect < 256)
 			expect[n_expect++] = d;
+	}
 }
 
 /* ---------------- consumers ---------------- */
@@ -714,6 +726,22 @@ static int run_case(struct vf_rng *r, long idx)
 	gen_stream(r, pk, npk, midnul);
 	nf = vf_chance(r, 1, 2) ? 0 : vf_range(r, 1, 3);
 	if (nf) kinds = apply_faults(r, nf);
+	/* one case in four: the application resets the demultiplexer once or twice somewhere in the stream, also in
+	   the middle of packets that are continued afterwards; half of those right behind a start or continue code */
+	n_reset = 0;
+	if (vf_chance(r, 1, 4) && n_stream > 2) {
+		int k, want = vf_range(r, 1, 2);
+		for (k = 0; k < want; k++) {
+			int at = vf_range(r, 1, n_stream - 1), tries;
+			if (vf_chance(r, 1, 2))
+				for (tries = 0; tries < 40; tries++) {
+					int j = vf_range(r, 1, n_stream - 1), c1 = stream[j - 1].b[0] & 0x7f;
+					if (c1 >= 1 && c1 <= 0x0E) { at = j + (vf_chance(r, 1, 2) && j + 1 < n_stream ? 1 : 0); break; }
+				}
+			reset_at[n_reset++] = at;
+		}
+		vf_count("demux_resets", n_reset);
+	}
 	has_unsupported = 0;
 	for (i = 0; i < n_stream; i++) {
 		int c1 = stream[i].b[0] & 0x7f, c2 = stream[i].b[1] & 0x7f;
@@ -732,7 +760,7 @@ static int run_case(struct vf_rng *r, long idx)
 		vf_log("\n");
 	}
 	/* cross-check model against packetiser bookkeeping on fault-free, in-domain streams */
-	if (!nf && !midnul) {
+	if (!nf && !midnul && !n_reset) {
 		for (i = 0; i < npk; i++)
 			if (!pk[i].bad_sum && pk[i].len >= 1 && pk[i].len <= 32) intended++;
 		/* two packets with the same class/type are sent one after the other, so both count */
@@ -745,8 +773,10 @@ static int run_case(struct vf_rng *r, long idx)
 	n_got = 0; got_bad_nul = 0;
 	xd = vbi_xds_demux_new(demux_cb, NULL);
 	if (!xd) { vf_fail("harness:alloc", "vbi_xds_demux_new failed"); return 0; }
-	for (i = 0; i < n_stream; i++)
+	for (i = 0; i < n_stream; i++) {
+		if (is_reset_point(i)) vbi_xds_demux_reset(xd);
 		vbi_xds_demux_feed(xd, stream[i].b);
+	}
 	compare("feed");
 	vbi_xds_demux_delete(xd);
 
@@ -761,6 +791,7 @@ static int run_case(struct vf_rng *r, long idx)
 		sl[1].id = (i & 1) ? VBI_SLICED_CAPTION_525 : VBI_SLICED_CAPTION_525_F2; sl[1].line = (i % 3 == 0) ? 0 : 284;
 		sl[1].data[0] = stream[i].b[0]; sl[1].data[1] = stream[i].b[1];
 		sl[2].id = VBI_SLICED_TELETEXT_B; sl[2].line = 7; memset(sl[2].data, 0x15, 42);
+		if (is_reset_point(i)) vbi_xds_demux_reset(xd);
 		vbi_xds_demux_feed_frame(xd, sl, 3);
 	}
 	compare("feed_frame");
